@@ -126,7 +126,8 @@ class HeapNode(Generic[T, Key]):
         return (self.deleted and not other.deleted) or self.key < other.key
 
     def __le__(self, other):
-        return self < other or self.key == other.key
+        # derived from < alone: keys need not define an == that agrees with their order (edits are equal by identity only)
+        return not (other < self)
 
     def __eq__(self, other):
         return id(self) == id(other)
